@@ -8,3 +8,5 @@ INVARIANT EnumInv
 INVARIANT UpDownInv
 INVARIANT SpecializeInv
 INVARIANT DualityInv
+INVARIANT SizeSoundInv
+INVARIANT SizeAgreeInv
